@@ -36,6 +36,51 @@ func rulesC10(c *Ctx) {
 	c.Floor("C10.NILDEREF", 60)
 	ruleC10LexErr(c)
 	ruleC10Panic(c)
+	ruleC10NilRecv(c)
+}
+
+// ruleC10NilRecv: results of the listener's pop helpers are nil once an error is latched; using one
+// as a method receiver needs a nil test or the listener's "no error so far" guard.
+func ruleC10NilRecv(c *Ctx) {
+	p := c.P
+	pops := map[*types.Func]bool{}
+	for _, m := range []string{"popNode", "popSymbolNode"} {
+		pops[p.Method("ast", "ToBoltListener", m)] = true
+	}
+	hasErr := p.Method("ast", "ToBoltListener", "HasError")
+	n := 0
+	for _, fn := range c.prodFuncs("ast") {
+		var fi *FactInfo
+		for _, call := range callsIn(fn) {
+			cc := call.Common()
+			if !cc.IsInvoke() {
+				continue
+			}
+			src, ok := cc.Value.(*ssa.Call)
+			if !ok {
+				continue
+			}
+			cal, _ := calleeOf(src.Common())
+			if cal == nil || !pops[cal] {
+				continue
+			}
+			if fi == nil {
+				fi = ComputeFacts(fn)
+				c.Analysed(FnName(fn))
+			}
+			n++
+			construct := FnName(fn) + ": " + cc.Method.Name() + " on result of " + cal.Name()
+			ok = fi.Holds(call.Block(), Fact{"nonnil", src, true}) || fi.HoldsWhere(call.Block(), func(f Fact) bool {
+				if f.Kind != "true" || f.Pol {
+					return false
+				}
+				hc, isCall := f.V.(*ssa.Call)
+				return isCall && isCallTo(hc, hasErr)
+			})
+			c.Check(ok, "C10.NILRECV", construct, p.Pos(call.Pos()), "guarded by a nil test or by the listener's !HasError() latch (pop helpers return nil only after an error was latched)", "a pop helper's result is used as a method receiver without a nil test or the !HasError() guard: once an error is latched the helper returns nil and this call panics")
+		}
+	}
+	c.Floor("C10.NILRECV", 3)
 }
 
 // ---- ASSERT ----------------------------------------------------------------------------------
@@ -902,7 +947,27 @@ func ruleC10LexErr(c *Ctx) {
 		why = "the query is built even when the parser reported errors"
 	}
 	c.Check(ok, "C10.LEXERR", FnName(ap)+": parse errors stop the query", p.Pos(ap.Pos()), "getQuery runs only when zitiql.Parse returned no errors", why)
-	c.Floor("C10.LEXERR", 3)
+	// the listener itself must record every report: no path of SyntaxError returns without appending
+	se := p.SSAFunc(p.Method("zitiql", "ErrorListener", "SyntaxError"))
+	c.Analysed(FnName(se))
+	errsFld := p.Field("zitiql", "ErrorListener", "Errors")
+	isRecord := func(in ssa.Instruction) bool {
+		st, ok := in.(*ssa.Store)
+		if !ok {
+			return false
+		}
+		f, base := fieldOfAddr(st.Addr)
+		return sameVar(f, errsFld) && base == ssa.Value(se.Params[0])
+	}
+	ri := reachWithout(se, isRecord)
+	okRec := true
+	for _, r := range returnsOf(se) {
+		if ri.Reaches(r) {
+			okRec = false
+		}
+	}
+	c.Check(okRec, "C10.LEXERR", FnName(se)+": records every report", p.Pos(se.Pos()), "every path appends a ParseError (lexer reports carry no token and must still be recorded)", "a path returns without recording the syntax error: reports without an offending token (all lexer errors) are dropped and the text is silently altered")
+	c.Floor("C10.LEXERR", 4)
 }
 
 // ---- PANIC -----------------------------------------------------------------------------------
